@@ -36,6 +36,7 @@ def flat(b):
 for k, c in enumerate(flat(body)):
     q = "\n".join(lines[:gi]) + "\n(assert (not (=> %s %s)))\n(check-sat)\n" % (show(guard), show(c))
     open("/verif/out/tmp/conj.smt2", "w").write(q)
+    open("/verif/out/tmp/conj_%d.smt2" % k, "w").write(q)
     out = subprocess.run(["z3-new", "-T:8", "/verif/out/tmp/conj.smt2"], capture_output=True, text=True).stdout
     st = [l.strip() for l in out.split("\n") if l.strip() in ("sat", "unsat", "unknown", "timeout")]
     print(k, st[0] if st else "?", show(c)[:160])
